@@ -442,6 +442,7 @@ func c19run(c *ctx, r *rng, cs c19case) (w *c19world, rxP, txP mux.Verif19Params
 		srv, cli *mux.Session
 		sStreams map[uint32]*mux.Stream
 		cStreams []*mux.Stream
+		hello    []int
 		rxq      map[uint32]*c19streamRx
 	}
 	sessions := make([]*sess, cs.nsess)
@@ -501,48 +502,55 @@ func c19run(c *ctx, r *rng, cs c19case) (w *c19world, rxP, txP mux.Verif19Params
 		copy(b, tag) // the first min(n,8) bytes identify the datagram (together with its length)
 		return b
 	}
-	// open the streams: the client opens, says hello, the server accepts
-	for _, se := range sessions {
+	// open the streams: the client opens and says hello, the server accepts.  The reader of a stream is started at
+	// the very (virtual) instant its stream is accepted, so that every delivery -- the hello included -- is observed
+	// when it happens: every delivery is an "accepted from the user" event.
+	var rwg, wwg sync.WaitGroup
+	for si, se := range sessions {
 		for k := 0; k < cs.nstream; k++ {
 			st, err := se.cli.OpenStream()
 			if err != nil {
 				panic(err)
 			}
 			se.cStreams = append(se.cStreams, st)
-			if _, err := st.Write(mkPayload(8 + r.intn(8))); err != nil {
+			hello := mkPayload(8 + r.intn(8))
+			se.hello = append(se.hello, len(hello))
+			if _, err := st.Write(hello); err != nil {
 				panic(err)
 			}
 		}
-		for k := 0; k < cs.nstream; k++ {
+		for n := 0; n < cs.nstream; n++ {
 			a, err := se.srv.Accept()
 			if err != nil {
 				panic(err)
 			}
-			s := a.(*mux.Stream)
-			se.sStreams[mux.Verif14StreamID(s)] = s
-		}
-	}
-	// readers on the server side: every delivery is an "accepted from the user" event
-	var rwg, wwg sync.WaitGroup
-	for si, se := range sessions {
-		for k, cst := range se.cStreams {
-			sid := mux.Verif14StreamID(cst)
-			sst := se.sStreams[sid]
-			expect := 0
+			sst := a.(*mux.Stream)
+			sid := mux.Verif14StreamID(sst)
+			se.sStreams[sid] = sst
+			k := -1
+			for i, cst := range se.cStreams {
+				if mux.Verif14StreamID(cst) == sid {
+					k = i
+				}
+			}
+			if k < 0 {
+				panic("accepted a stream the client did not open")
+			}
+			expect := se.hello[k]
 			for _, sz := range cs.rx[si][k].sizes {
 				expect += sz
 			}
-			// the hello is already (or about to be) in the pipe; its length is whatever the first read shows
 			rwg.Add(1)
 			go func(se *sess, sid uint32, sst *mux.Stream, expect int) {
 				defer rwg.Done()
 				buf := make([]byte, 1<<17)
-				got := -1 // -1: hello not seen yet
+				got := 0 // payload bytes read so far, the hello included
 				for got < expect {
 					n, err := sst.Read(buf)
 					if err != nil {
 						return
 					}
+					got += n
 					t := w.now()
 					if cs.unordered {
 						w.mu.Lock()
@@ -551,11 +559,6 @@ func c19run(c *ctx, r *rng, cs c19case) (w *c19world, rxP, txP mux.Verif19Params
 							w.rxEv = append(w.rxEv, c19ev{t, int64(wire)})
 						}
 						w.mu.Unlock()
-						if got < 0 {
-							got = 0
-						} else {
-							got += n
-						}
 						continue
 					}
 					// ordered: n bytes = the payloads of whole frames accepted at this instant
@@ -571,7 +574,9 @@ func c19run(c *ctx, r *rng, cs c19case) (w *c19world, rxP, txP mux.Verif19Params
 						}
 						f := q.frames[0]
 						if f.payload > left {
-							q.frames[0].payload -= left // (does not happen with whole-frame pipe writes and a 128k buffer)
+							// the read stopped inside this frame (more than len(buf) bytes were waiting): it counts as
+							// accepted when its last byte has been read -- at this same virtual instant
+							q.frames[0].payload -= left
 							left = 0
 							q.mu.Unlock()
 							break
@@ -584,11 +589,6 @@ func c19run(c *ctx, r *rng, cs c19case) (w *c19world, rxP, txP mux.Verif19Params
 							w.rxEv = append(w.rxEv, c19ev{t, int64(f.wire)})
 						}
 						w.mu.Unlock()
-						if got < 0 {
-							got = 0 // that was the hello
-						} else {
-							got += f.payload
-						}
 					}
 				}
 			}(se, sid, sst, expect)
